@@ -187,10 +187,43 @@ def _norm_keep(v):
     return v
 
 
+def os_oracle(f):
+    """The operating-system half of the file exports, which the Coq model does not carry (a `write` is a pair
+    (path, text)): the model's list of writes is replayed on a virtual empty directory and refused where the
+    OS refuses - an empty path (or one that names a directory: ".", "a/"), a path below something written as
+    a file, or a file where a directory was made.  A refusal is the outcome class "OS"; so is the
+    implementation's FailedFileOpen / FailedDirCreate."""
+    if not isinstance(f, dict):
+        return f
+    if isinstance(f.get("err"), str) and (f["err"].startswith("OTHER(Unable to open file")
+                                          or f["err"].startswith("OTHER(Unable to create dir")):
+        return {"err": "OS"}
+    if not isinstance(f.get("ok"), list):
+        return f
+    files, dirs = set(), set()
+    for w in f["ok"]:
+        if not (isinstance(w, list) and len(w) == 2 and isinstance(w[0], str)):
+            return f
+        raw = w[0]
+        p = os.path.normpath(raw) if raw != "" else ""
+        if p in ("", ".") or raw.endswith("/") or p in dirs:
+            return {"err": "OS"}
+        parts = p.split("/")
+        for i in range(1, len(parts)):
+            d = "/".join(parts[:i])
+            if d in files:
+                return {"err": "OS"}
+            dirs.add(d)
+        files.add(p)
+    return f
+
+
 def normalise(j):
-    """Canonicalise what is unordered in the implementation (HashSet of keep_sections)."""
+    """Canonicalise what is unordered in the implementation (HashSet of keep_sections); the outcome of the
+    file exports goes through the OS oracle."""
     if isinstance(j, dict):
-        return {k: (_norm_keep(v) if k == "keep_sections" else normalise(v)) for k, v in j.items()}
+        return {k: (_norm_keep(v) if k == "keep_sections" else os_oracle(normalise(v)) if k == "files"
+                    else normalise(v)) for k, v in j.items()}
     if isinstance(j, list):
         return [normalise(x) for x in j]
     return j
